@@ -313,8 +313,11 @@ var _ = MessageBadUnexported{}.b
 
 func TestC17Generated(t *testing.T) {
 	rec := evid.New(t, "C17", "generated dialects: random subsets of shipped and user message types with injected faults - a duplicate id at a random position, or a malformed struct of every documented class (name prefix, enum not uint64, unsupported/non-enum mavenum type, unsupported Go field type, non-numeric mavlen) plus oversize (>255 bytes, array/string longer than 255) and unexported fields; Initialize must return an error (never nil followed by a panic at first Read/Write); fault-free dialects must initialize and serve every id; non-trivial = fault injected after >= 1 good message; distinct by hash of the id/type list")
-	rec.Require("duplicate-id", "malformed-struct", "fault-free", "oversize-or-unexported")
+	rec.Require("duplicate-id", "malformed-struct", "fault-free", "oversize-or-unexported", "dialect-object-edited-in-place")
 	tys := types(t)
+	// some cases re-initialize ONE dialect object that is edited in place between cases (same or different
+	// number of messages): what Initialize decides must depend on the dialect as it is now, not on earlier calls
+	shared := &dialect.Dialect{Version: 3}
 	evid.Check(t, rec, evid.N(20000, 80000), func(t *rapid.T) {
 		n := rapid.IntRange(0, 12).Draw(t, "n")
 		var msgs []message.Message
@@ -368,7 +371,13 @@ func TestC17Generated(t *testing.T) {
 			}
 			return fmt.Sprint(s)
 		}
-		rw := &dialect.ReadWriter{Dialect: &dialect.Dialect{Version: 3, Messages: msgs}}
+		reuse := rapid.IntRange(0, 2).Draw(t, "reuse_dialect_object") == 0
+		d := &dialect.Dialect{Version: 3, Messages: msgs}
+		if reuse {
+			shared.Messages = msgs
+			d = shared
+		}
+		rw := &dialect.ReadWriter{Dialect: d}
 		err := func() (err error) {
 			defer func() {
 				if r := recover(); r != nil {
@@ -401,6 +410,9 @@ func TestC17Generated(t *testing.T) {
 			}
 			evid.ReplayNote("C17", "TestC17Generated", fmt.Sprintf("%s fault=%s at %d: Initialize returned nil%s", desc(), fault, pos, use))
 			t.Fatalf("dialect %s with a %s (%T at position %d) was accepted by Initialize%s", desc(), fault, bad, pos, use)
+		}
+		if reuse {
+			cls = append(cls, "dialect-object-edited-in-place")
 		}
 		rec.Case(fault != "none" && pos >= 1, evid.HashS(desc(), fault), cls...)
 		if fault != "none" && pos >= 1 && rec.WantSample(cls[0]) {
